@@ -107,21 +107,24 @@ def prove_fast(ob):
 
 
 def prove_slow(v, smt2, timeout_s):
-    """second stage for queries the fast pass left open: cvc5 (strings) and z3-new CLIs,
-    run by the caller in a thread pool."""
+    """second stage for queries the fast pass left open: cvc5 (strings) and z3-new CLIs
+    concurrently; the caller runs several of these in a thread pool."""
+    from concurrent.futures import ThreadPoolExecutor
     t0 = time.time()
-    c = run_cvc5(smt2, timeout_s)
-    if c == 'unsat':
-        v.status, v.backend = 'proved', 'cvc5'
-    else:
-        zn = run_z3new(smt2, timeout_s)
-        if zn == 'unsat':
-            v.status, v.backend = 'proved', 'z3-new'
-        elif zn == 'sat' or c == 'sat':
-            v.status, v.backend = 'refuted', ('z3-new' if zn == 'sat' else 'cvc5')
-            v.reason = 'sat (model not extracted from CLI run)'
+    with ThreadPoolExecutor(2) as ex:
+        fc = ex.submit(run_cvc5, smt2, timeout_s)
+        fz = ex.submit(run_z3new, smt2, timeout_s)
+        c, zn = fc.result(), fz.result()
+    if c == 'unsat' or zn == 'unsat':
+        if 'sat' in (c, zn):
+            v.status, v.reason = 'undecided', f'solver disagreement cvc5={c} z3-new={zn}'
         else:
-            v.reason = f'unknown/timeout after {timeout_s}s in cvc5 and z3-new (z3 API: {v.reason})'
+            v.status, v.backend = 'proved', ('cvc5' if c == 'unsat' else 'z3-new')
+    elif zn == 'sat' or c == 'sat':
+        v.status, v.backend = 'refuted', ('z3-new' if zn == 'sat' else 'cvc5')
+        v.reason = 'sat (model not extracted from CLI run)'
+    else:
+        v.reason = f'unknown/timeout after {timeout_s}s in cvc5 and z3-new (z3 API: {v.reason})'
     v.seconds += time.time() - t0
     return v
 
